@@ -33,6 +33,9 @@ pub enum Step {
     CloseTargetReader(usize),
     /// (fault part of C14 only) Let this much virtual time (ms) pass with no activity, then settle.
     Idle(u64),
+    /// (select parts only) Settle, send one well-formed command to a value or map lane, settle: the
+    /// lane's history between the two quiescent points must be exactly the operation the command spells.
+    Effect { remote: usize, lane: String, body: String },
 }
 
 /// How the harness answers one request of the runtime to open a command channel.
@@ -523,6 +526,36 @@ impl<'a> Gen<'a> {
                 steps.push(Step::Idle(*self.rng.pick(&[1u64, 5, 400, 3_000, 7_000])));
                 let n = self.rng.range(1, 5);
                 steps.push(self.send_burst(0, target, n, None));
+            }
+        }
+        steps
+    }
+
+    /// Select parts: the conversation of `script`, into which command-effect probes are inserted
+    /// (about one step in fourteen; the generator of `script` itself is not touched, so the base
+    /// conversations are drawn exactly like those of the derived agent's parts).
+    pub fn script_with_effects(&mut self, focus: Focus, cfg: &Config, len: usize) -> Vec<Step> {
+        let base = self.script(focus, cfg, len);
+        let mut steps = vec![];
+        for (i, st) in base.into_iter().enumerate() {
+            let stop = matches!(st, Step::StopAgent);
+            steps.push(st);
+            if i == 0 || stop || !self.rng.chance(1, 14) {
+                continue;
+            }
+            let r = self.rng.usize_below(cfg.remotes);
+            let src = r + 1;
+            let on_value = match focus {
+                Focus::Value => self.rng.chance(4, 5),
+                Focus::Map => self.rng.chance(1, 10),
+                _ => self.rng.bool(),
+            };
+            if on_value {
+                let (lane, _) = self.value_lane();
+                steps.push(Step::Effect { remote: r, lane: lane.to_string(), body: self.val(src).to_string() });
+            } else {
+                let (lane, idx) = self.map_lane();
+                steps.push(Step::Effect { remote: r, lane: lane.to_string(), body: self.map_command(idx, cfg, src) });
             }
         }
         steps
